@@ -34,14 +34,24 @@ def _val(draw, seg):
         return draw(st.sampled_from(R.RE_VALUES.get(seg[3], []) * 3 + R.VALUE_POOL['re']))
     if f == 'path':
         return draw(st.one_of(st.sampled_from(R.VALUE_POOL['path']), st.lists(st.sampled_from(['a', 'b', 'end', 'le', 'x.y', 'é', '1']), min_size=1, max_size=4).map('/'.join)))
-    return draw(st.one_of(st.sampled_from(R.VALUE_POOL[None]), st.text(st.characters(exclude_categories=['Cs'], exclude_characters='/\r\n'), min_size=1, max_size=6),
+    return draw(st.one_of(st.sampled_from(R.VALUE_POOL[None]), st.text(st.characters(exclude_categories=['Cs'], exclude_characters='/'), min_size=1, max_size=6),
+                          st.sampled_from(['a\rb', '\r', 'x\r', '\ry', 'a\nb', '\t', 'a\r\rb']),
                           st.sampled_from(['a%20b', 'q?x=1', 'h#f', 'a b', '..', '.', '~', 'a+b', 'a=b&c', 'é', '%', 'a:b', '<x>', '{y}'])))
 
 
 @st.composite
 def case_st(draw):
-    kind = draw(st.integers(0, 9))
-    if kind <= 5:
+    kind = draw(st.integers(0, 10))
+    if kind == 10:
+        # long rules: 8-14 wildcards (mostly anonymous, passed positionally) separated by short literals
+        segs = [['lit', '/']]
+        for i in range(draw(st.integers(8, 14))):
+            f = draw(st.sampled_from([None, 'int', 'int', 'float', 're']))
+            nm = None if (f is not None and draw(st.integers(0, 3))) else 'p%d' % i
+            segs.append(['w', nm, f, '[a-c]+' if f == 're' else None])
+            segs.append(['lit', draw(st.sampled_from(['/', '/', '-', '/x/', '.']))])
+        ast = R._fix(segs[:-1] if draw(st.booleans()) else segs)
+    elif kind <= 5:
         ast = draw(R.rule_st())
     else:
         # targeted shapes
